@@ -271,7 +271,7 @@ func parent() {
 	lpName := "LpPacket frames (single, full product)"
 	lpc := &famCov{}
 	ps.perFamily[lpName] = lpc
-	var lpJobs []*job
+	var lpJobs, lp1Jobs []*job // lpJobs: the history families (a few worker-seconds each), scheduled before the full single-frame product
 	for cfg := range lpConfigs {
 		if !want(lpName) {
 			break
@@ -286,10 +286,10 @@ func parent() {
 				hi = lpSize()
 			}
 			nextID++
-			lpJobs = append(lpJobs, &job{t: task{ID: nextID, Kind: "lp1", N: cfg, Lo: lo, Hi: hi, Only: -1}, fam: lpName, grpKey: fmt.Sprintf("lp1/cfg%d", cfg)})
+			lp1Jobs = append(lp1Jobs, &job{t: task{ID: nextID, Kind: "lp1", N: cfg, Lo: lo, Hi: hi, Only: -1}, fam: lpName, grpKey: fmt.Sprintf("lp1/cfg%d", cfg)})
 		}
 	}
-	lpc.Tasks = len(lpJobs)
+	lpc.Tasks = len(lp1Jobs)
 	// fragment bursts (macro-operation histories)
 	burstName := "LpPacket fragment bursts (macro histories)"
 	if want(burstName) {
@@ -331,6 +331,29 @@ func parent() {
 			}
 		}
 	}
+	// genuine fragment histories with a rejected frame inserted at every position
+	fragName := "LpPacket fragment histories with rejected frames at every position"
+	if want(fragName) {
+		fc := &famCov{}
+		ps.perFamily[fragName] = fc
+		fcfgs := []int{1, 4} // 2 threads: non-local and local face
+		if thorough {
+			fcfgs = []int{0, 1, 2, 3, 4, 5}
+		}
+		for _, cfg := range fcfgs {
+			fc.Size += fragSize()
+			const step = 6000
+			for lo := int64(0); lo < fragSize(); lo += step {
+				hi := lo + step
+				if hi > fragSize() {
+					hi = fragSize()
+				}
+				nextID++
+				lpJobs = append(lpJobs, &job{t: task{ID: nextID, Kind: "lpfrag", Family: -4, N: cfg, Lo: lo, Hi: hi, Only: -1}, fam: fragName, grpKey: fmt.Sprintf("lpfrag/cfg%d", cfg)})
+				fc.Tasks++
+			}
+		}
+	}
 	// order: small families first, the big odometer families last
 	work := map[int]int64{}
 	for fi, f := range d.Families {
@@ -349,7 +372,9 @@ func parent() {
 	for nSmall < len(jobs) && work[jobs[nSmall].t.Family] < 20000000 {
 		nSmall++
 	}
-	all := append(append(append([]*job{}, jobs[:nSmall]...), lpJobs...), jobs[nSmall:]...)
+	// the history families of the link service come first of all: they are cheap and carry the
+	// C04.state clause over frame sequences; then the small families, the single-frame product, the rest
+	all := append(append(append(append([]*job{}, lpJobs...), jobs[:nSmall]...), lp1Jobs...), jobs[nSmall:]...)
 
 	var wg sync.WaitGroup
 	// BFS over frame sequences runs concurrently with the enumeration
@@ -430,6 +455,9 @@ func parent() {
 		"frame_sequences":        bfsCov,
 		"reconfiguration_histories": map[string]any{"alphabet": reconfEvents, "depth": reconfDepth(), "histories_per_configuration": reconfSize(), "configurations": map[bool]string{false: "2 threads, non-local and local face", true: "1, 2, 32 threads x non-local / local face"}[thorough],
 			"checked": "last event of every history (all shorter histories are members of the family)", "setter_panics": ps.setterPanics},
+		"fragment_histories": map[string]any{"genuine_frames": fragGenuineNames, "rejected_kinds": fragRejKinds, "header_variants": fragHeaderVariants,
+			"orders_x_positions": len(fragSlots()), "inserted_sequences": len(fragInserts()), "histories_per_configuration": fragSize(),
+			"checked": "every frame from the inserted one on with C04.panic / C04.state (verdict from the white-box reassembly store); differential against the history without the inserted frame after every later frame"},
 		"alloc_attribution":         attrCov,
 		"build_s":                   tBuild.Seconds(),
 		"workers":                   enum.Workers(),
@@ -449,6 +477,7 @@ func parent() {
 		"allocation of the stream entries that hand every frame to a consumer (link service, ReadPacket): bound + 1 KiB per delivered frame (the consumer's input-independent cost is paid per frame; a 300 kB stream of 2-byte blocks is 150 000 frames)",
 		"forwarding threads are recording stubs; PIT/CS/FIB are therefore never reached by a frame in this check",
 		"link-service histories (single frames, sequences, bursts, reconfiguration histories): every frame is copied into ONE receive buffer per face, whose earlier content is overwritten first (a transport owns its buffer between calls); C04.state compares the link-service dump and a deep fingerprint of every packet already handed to a recording thread before/after a frame that fails to decode or has contradictory fragmentation fields; the stream entries use readTlvStream's own buffer",
+		"C04.state reads 'a frame that fails to decode' as: a frame the receive path cannot turn into a packet - not a TLV packet; Sequence with FragCount=0 or FragIndex>=FragCount; a fragment whose FragCount contradicts the slot its base sequence already has in the reassembly store; an unfragmented LpPacket / a completed reassembly whose bytes do not decode (then the completed slot itself may be consumed). Frames outside these classes (genuine fragments, IDLE, fragmentation fields without Sequence, nested LpPackets, FragCount above the implementation's limit) are not judged, except that NO later frame may change a packet already handed to a forwarding thread",
 	}
 	rep.Finish(cov, assumptions)
 }
@@ -664,6 +693,8 @@ func replay(bin, path string) int {
 	var t task
 	if rf.Replay.Family == -2 {
 		t = task{ID: 11, Kind: "lpburst", Family: -2, N: rf.Replay.Cfg, Lo: rf.Replay.Index, Hi: rf.Replay.Index + 1, Only: -1}
+	} else if rf.Replay.Family == -4 {
+		t = task{ID: 11, Kind: "lpfrag", Family: -4, N: rf.Replay.Cfg, Lo: rf.Replay.Index, Hi: rf.Replay.Index + 1, Only: -1}
 	} else if rf.Replay.Family == -3 {
 		t = task{ID: 11, Kind: "lpreconf", Family: -3, N: rf.Replay.Cfg, Lo: rf.Replay.Index, Hi: rf.Replay.Index + 1, Only: -1}
 	} else if len(rf.Replay.Hist) > 0 {
